@@ -79,6 +79,44 @@ theorem saveReach_le (v : Val) : ∀ d, d ≤ maxSaveDepth → saveReach d v ≤
     · exact hd
     · exact ih (d + 1) (by omega)
 
+/-- the restore pre-pass accepts exactly what svalue_save_size would write: the same depth limit -/
+theorem restoreWalk_eq (v : Val) : ∀ d, restoreWalk d v = (saveSize d v).isSome := by
+  induction v with
+  | leaf n => intro d; simp [restoreWalk, saveSize]
+  | nil => intro d; simp [restoreWalk, saveSize]
+  | cons h t ih1 ih2 =>
+    intro d
+    unfold restoreWalk saveSize
+    rw [ih1 d, ih2 d]
+    cases saveSize d h <;> cases saveSize d t <;> simp
+  | box i ih =>
+    intro d
+    unfold restoreWalk saveSize
+    split
+    · simp
+    · rw [ih (d + 1)]
+      cases saveSize (d + 1) i <;> simp
+
+/-- the recursion of the pre-pass goes at most one level past the limit (the call that refuses), for every text -/
+theorem restoreReach_le (v : Val) : ∀ d, d ≤ maxSaveDepth → restoreReach d v ≤ maxSaveDepth + 1 := by
+  induction v with
+  | leaf n => intro d h; simp only [restoreReach]; omega
+  | nil => intro d h; simp only [restoreReach]; omega
+  | cons h t ih1 ih2 =>
+    intro d hd
+    unfold restoreReach
+    split
+    · have := ih1 d hd
+      have := ih2 d hd
+      omega
+    · exact ih1 d hd
+  | box i ih =>
+    intro d hd
+    unfold restoreReach
+    split
+    · omega
+    · exact ih (d + 1) (by omega)
+
 theorem saveVariable_bounded {v : Val} {l : Int} {sz : Nat} (hl : LimitOk l) (h : saveVariable v l = .ok sz) :
     (sz : Int) ≤ l := by
   unfold saveVariable at h
